@@ -3,7 +3,7 @@
 From Coq Require Import List ZArith NArith Bool.
 From Coq.Strings Require Import Byte.
 From L4.model Require Import Select.
-From L4.proofs Require Import SelectProofs.
+From L4.proofs Require Import SelectProofs SelectHrwProofs.
 Import ListNotations.
 Open Scope Z_scope.
 
@@ -55,6 +55,14 @@ Theorem C10_round_robin_complete_partial : forall pool robin,
   0 <= robin -> robin + Z.of_nat (length pool) < two32 ->
   some_available pool -> exists i r', round_robin pool robin = (Sel i, r').
 Proof. exact round_robin_complete. Qed.
+(* each selection is the first available upstream, cyclically, after the previous position: hence every
+   available upstream is visited once per cycle (no wrap) *)
+Theorem C10_round_robin_next_available : forall pool robin i r',
+  0 <= robin -> robin + Z.of_nat (length pool) < two32 ->
+  round_robin pool robin = (Sel i, r') ->
+  robin < r' <= robin + Z.of_nat (length pool) /\ i = Z.to_nat (r' mod Z.of_nat (length pool)) /\
+  avail_pos pool r' = true /\ forall p, robin < p < r' -> avail_pos pool p = false.
+Proof. exact round_robin_next. Qed.
 Theorem C10_round_robin_no_panic : forall pool robin, fst (round_robin pool robin) <> Panic.
 Proof. exact round_robin_nopanic. Qed.
 
@@ -63,6 +71,15 @@ Theorem C10_ip_hash_sound : forall pool ip i, ip_hash pool ip = Sel i -> is_avai
 Proof. exact (hrw_sound fnv32a). Qed.
 Theorem C10_ip_hash_complete : forall pool ip, some_available pool -> exists i, ip_hash pool ip = Sel i.
 Proof. exact (hrw_complete fnv32a). Qed.
+(* a client's upstream is kept when other upstreams leave the pool *)
+Theorem C10_ip_hash_stable_under_removal : forall ip pool i u keep,
+  ip_hash pool ip = Sel i -> nth_error pool i = Some u -> keep u = true ->
+  exists j, ip_hash (filter keep pool) ip = Sel j /\ nth_error (filter keep pool) j = Some u.
+Proof. exact (hrw_stable_under_removal fnv32a). Qed.
+(* the choice is a function of the client address and of the available members only *)
+Theorem C10_ip_hash_depends_on_available_only : forall ip pool,
+  sel_u pool (ip_hash pool ip) = sel_u (filter available pool) (ip_hash (filter available pool) ip).
+Proof. exact (hrw_depends_on_available_only fnv32a). Qed.
 Theorem C10_ip_hash_no_panic : forall pool ip, ip_hash pool ip <> Panic.
 Proof. exact (hrw_nopanic fnv32a). Qed.
 
@@ -108,6 +125,9 @@ Print Assumptions C10_round_robin_complete_partial.
 Print Assumptions C10_round_robin_no_panic.
 Print Assumptions C10_ip_hash_sound.
 Print Assumptions C10_ip_hash_complete.
+Print Assumptions C10_ip_hash_stable_under_removal.
+Print Assumptions C10_ip_hash_depends_on_available_only.
+Print Assumptions C10_round_robin_next_available.
 Print Assumptions C10_random_choose_sound.
 Print Assumptions C10_random_choose_complete.
 Print Assumptions C10_random_choose_no_panic.
